@@ -99,17 +99,30 @@ def run(ck, facts):
         got = tuple(ft["dart_ffi"].get(r[1], ("unknown", 0)))
         ck.expect(got == want(prim), "R1", key, "%s %s" % (r[1], got), "%s is declared as `%s` %s in dart:ffi but the Rust type %s is %s" % (prim, r[1], got, T._PRIM_MAP[prim], want(prim)), C.loc(df, r[2]))
     # string element
-    sf = tool.fn("dart::formatter::DartFormatter::fmt_string_element_as_ffi")
-    ms = T.find_matches(sf, "StringEncoding")
+    # (the element type of a string slice record: whichever function the `Slice::Str` arm of gen_slice_element_ty reads it from -- a table of ffi type
+    # names, or a code-unit IntType handed to the primitive table above)
+    ge = tool.fn("dart::TyGenContext::gen_slice_element_ty")
+    sf, ms = ge, []
+    for cand in C.fns_inl(tool, ge, 2):
+        ms = T.find_matches(cand, "StringEncoding")
+        if ms:
+            sf = cand
+            break
+    int_word = {"U8": "ffi.Uint8", "I8": "ffi.Int8", "U16": "ffi.Uint16", "I16": "ffi.Int16", "U32": "ffi.Uint32", "I32": "ffi.Int32", "U64": "ffi.Uint64", "I64": "ffi.Int64"}
     if ms:
         for v, hits in C.decision_table(ms[0], adts):
             arm = next((i for i, c in hits if not c), None)
             r = T.arm_result(ms[0]["arms"][arm]["b"]) if arm is not None else ("nomatch",)
+            if r[0] == "expr" and isinstance(r[1], dict):
+                ctor = next((x.get("p", "").split("::")[-1] for x in C.walk(r[1]) if x.get("k") == "def" and "IntType::" in (x.get("p") or "")), None)
+                if ctor in int_word:
+                    r = ("str", int_word[ctor])
             exp = {"Utf8": "ffi.Uint8", "UnvalidatedUtf8": "ffi.Uint8", "UnvalidatedUtf16": "ffi.Uint16"}.get(v.variant)
             if exp:
-                ck.expect(r[:2] == ("str", exp), "R1", "dart::fmt_string_element_as_ffi/" + v.variant, exp, "string element type for %s is %s, expected %s" % (v.variant, r[:2], exp), C.loc(sf))
+                ck.expect(r[:2] == ("str", exp), "R1", "dart::fmt_string_element_as_ffi/" + v.variant, exp, "the element type of a %s string slice record is %s, expected %s (unsigned code units of the "
+                          "encoding's width: the C view is `const char*` / `const char16_t*`)" % (v.variant, r[:2], exp), C.loc(sf))
     else:
-        ck.bad("R1", "dart::fmt_string_element_as_ffi", "anchor match not found", C.loc(sf))
+        ck.bad("R1", "dart::fmt_string_element_as_ffi", "no table from string encoding to element type found under gen_slice_element_ty", C.loc(ge))
     # helper-name tables: the embedded type word must denote the same (kind,bits)
     word = {"bool": ("bool", 8), "int8": ("int", 8), "uint8": ("uint", 8), "int16": ("int", 16), "uint16": ("uint", 16), "int32": ("int", 32), "uint32": ("uint", 32),
             "int64": ("int", 64), "uint64": ("uint", 64), "usize": ("uint", "ptr"), "isize": ("int", "ptr"), "float32": ("float", 32), "float64": ("float", 64), "float": ("float", 32), "double": ("float", 64), "rune": ("uint", 32)}
